@@ -173,9 +173,9 @@ type vSessLog struct {
 	accepts   int
 	curConn   int // index of the latest accepted connection
 	curAlive  bool
-	updRecv   map[int]int // UPDATE messages read per connection
-	anyRecv   map[int]int // all messages read per connection
-	lastEvent time.Time   // harness-internal pacing only (never logged, never judged)
+	updRecv   map[int]int   // UPDATE messages read per connection
+	anyRecv   map[int]int   // all messages read per connection
+	lastEvent time.Time     // harness-internal pacing only (never logged, never judged)
 	changed   chan struct{} // closed and replaced whenever a line is added (see sess_ctl_test.go)
 	sealed    bool          // the "end" line is written: whatever a surviving goroutine does later is not part of the run
 	holdC     int           // connection whose OPEN reply the peer is holding back (0 = none)
@@ -232,18 +232,19 @@ type vSessPeer struct {
 	// what the peer announces differs from connection to connection (the same router coming back
 	// with another software version / configuration): capability 65 (4-octet ASNs), the
 	// multiprotocol capabilities, the hold time; and it may pipeline its first messages
-	vary   bool
-	holds  []uint16
-	rng    *rand.Rand       // guarded by mu
-	myASN  uint32           // the session's ASN (logged with every UPDATE record)
-	opened map[int]vSessOpn // what was announced on connection k
+	vary    bool
+	holds   []uint16
+	rng     *rand.Rand       // guarded by mu
+	myASN   uint32           // the session's ASN (logged with every UPDATE record)
+	opened  map[int]vSessOpn // what was announced on connection k
+	remotes map[int][]int    // remote address of connection k as the peer sees it
 
 	mu        sync.Mutex
 	wrong     int // present a wrong ASN on the next `wrong` connections
 	refused   int // connections on which a wrong ASN was presented
 	conns     map[int]net.Conn
-	dropAfter map[int]int // connection -> drop when this many UPDATEs have been read (armed)
-	rst       bool        // drop with RST instead of FIN
+	dropAfter map[int]int   // connection -> drop when this many UPDATEs have been read (armed)
+	rst       bool          // drop with RST instead of FIN
 	holdNext  bool          // slow handshake: hold the reply to the next OPEN until release()
 	holdCh    chan struct{} // closed by release()
 	done      chan struct{}
@@ -267,7 +268,7 @@ func vSessNewPeer(l *vSessLog, u *vSessUniverse, asn uint32, hold uint16) *vSess
 	ln, err := net.Listen("tcp4", "127.0.0.1:0")
 	kit.Must(err)
 	p := &vSessPeer{log: l, u: u, ln: ln, port: ln.Addr().(*net.TCPAddr).Port, asn: asn, hold: hold,
-		conns: map[int]net.Conn{}, dropAfter: map[int]int{}, done: make(chan struct{}), opened: map[int]vSessOpn{}}
+		conns: map[int]net.Conn{}, dropAfter: map[int]int{}, done: make(chan struct{}), opened: map[int]vSessOpn{}, remotes: map[int][]int{}}
 	return p
 }
 
@@ -304,6 +305,9 @@ func (p *vSessPeer) acceptLoop() {
 		p.log.mu.Unlock()
 		p.mu.Lock()
 		p.conns[k] = c
+		if ta, ok := c.RemoteAddr().(*net.TCPAddr); ok && ta.IP.To4() != nil {
+			p.remotes[k] = vSessInts(ta.IP.To4())
+		}
 		if arm > 0 {
 			p.dropAfter[k] = arm
 			p.rst = armRst
@@ -333,6 +337,16 @@ func (p *vSessPeer) release() {
 		p.holdCh = nil
 	}
 	p.mu.Unlock()
+}
+
+// remoteIP: the address the peer sees the session coming from on connection k (4 octets).
+func (p *vSessPeer) remoteIP(k int) []int {
+	p.mu.Lock()
+	defer p.mu.Unlock()
+	if ip, ok := p.remotes[k]; ok {
+		return ip
+	}
+	return []int{0, 0, 0, 0}
 }
 
 func (p *vSessPeer) setWrong(n int) {
@@ -399,6 +413,9 @@ func (p *vSessPeer) armNextDrop(n int, rst bool) {
 	p.log.mu.Unlock()
 }
 
+// vSessErrFraming: the octets at a message boundary are not a BGP header (marker / length).
+var vSessErrFraming = fmt.Errorf("framing")
+
 func vSessReadMsg(c net.Conn) (typ byte, body []byte, err error) {
 	hdr := make([]byte, 19)
 	if _, err = io.ReadFull(c, hdr); err != nil {
@@ -406,12 +423,12 @@ func vSessReadMsg(c net.Conn) (typ byte, body []byte, err error) {
 	}
 	for i := 0; i < 16; i++ {
 		if hdr[i] != 0xff {
-			return 0, nil, fmt.Errorf("bad marker")
+			return 0, nil, vSessErrFraming
 		}
 	}
 	n := int(binary.BigEndian.Uint16(hdr[16:18]))
 	if n < 19 || n > 4096 {
-		return 0, nil, fmt.Errorf("bad length %d", n)
+		return 0, nil, vSessErrFraming
 	}
 	body = make([]byte, n-19)
 	if _, err = io.ReadFull(c, body); err != nil {
@@ -568,6 +585,13 @@ func (p *vSessPeer) serve(k int, c net.Conn) {
 			c.SetReadDeadline(time.Time{})
 		}
 		typ, body, err := vSessReadMsg(c)
+		if err == vSessErrFraming {
+			// the stream cannot be read any further: log it and end the connection (what a router
+			// does with NOTIFICATION 1/1) - the drop is the peer's own
+			p.log.add("msg", map[string]interface{}{"c": k, "t": "badframe"})
+			p.drop(k, false)
+			return
+		}
 		if err != nil {
 			p.mu.Lock()
 			_, mine := p.conns[k]
@@ -598,7 +622,11 @@ func (p *vSessPeer) logMsg(k int, typ byte, body []byte) int {
 	case 2:
 		wd, anns, attrs, ok := vSessDecodeUpdate(body)
 		if !ok {
-			recs = append(recs, map[string]interface{}{"t": "other", "type": 2})
+			raw := body
+			if len(raw) > 160 {
+				raw = raw[:160]
+			}
+			recs = append(recs, map[string]interface{}{"t": "bad", "raw": vSessInts(raw), "len": len(body)})
 			break
 		}
 		if len(wd) > 0 {
@@ -615,7 +643,7 @@ func (p *vSessPeer) logMsg(k int, typ byte, body []byte) int {
 			// the raw path attributes go into the log together with what THIS connection's OPEN of the
 			// peer announced: whether AS_PATH has the width that capability implies is decided by TLC
 			recs = append(recs, map[string]interface{}{"t": "upd", "r": p.u.routeName(a.pfx), "a": p.u.attrName(a.lp, a.comms),
-				"attrs": vSessInts(attrs), "cap65": opn.cap65, "ibgp": p.u.ibgp, "myasn": int(p.myASN)})
+				"attrs": vSessInts(attrs), "cap65": opn.cap65, "ibgp": p.u.ibgp, "myasn": int(p.myASN), "nh": p.remoteIP(k)})
 		}
 		if len(wd) == 0 && len(anns) == 0 {
 			recs = append(recs, map[string]interface{}{"t": "other", "type": 2})
